@@ -39,7 +39,7 @@ type c20Case struct {
 
 func genC20(t *rapid.T) c20Case {
 	c := c20Case{Tool: rapid.SampledFrom([]string{"make-iso", "make-iso", "decrypt-redump", "decrypt-redump", "decrypt-3k3y"}).Draw(t, "tool"),
-		Output:  rapid.SampledFrom([]string{"new", "new", "new", "stdout", "stdout", "existing-file", "existing-file", "existing-dir", "existing-symlink"}).Draw(t, "output"),
+		Output:  rapid.SampledFrom([]string{"new", "new", "new", "stdout", "stdout", "existing-file", "existing-file", "existing-empty-file", "existing-dir", "existing-empty-dir", "existing-symlink", "existing-symlink-to-empty"}).Draw(t, "output"),
 		ServeIn: rapid.SampledFrom([]string{"PS3ISO", "ps3iso/sub", "ISOS", ""}).Draw(t, "serve_in")}
 	if c.Tool == "make-iso" {
 		base := genC07(t)
@@ -179,6 +179,18 @@ func runC20(c c20Case, st *hx.Stats) error {
 		os.WriteFile(outPath, bytes.Repeat([]byte("PRECIOUS"), 1000), 0o644)
 		old := time.Unix(1_500_000_000, 0)
 		os.Chtimes(outPath, old, old)
+	case "existing-empty-file":
+		os.WriteFile(outPath, nil, 0o644)
+		old := time.Unix(1_500_000_000, 0)
+		os.Chtimes(outPath, old, old)
+	case "existing-empty-dir":
+		os.Mkdir(outPath, 0o755)
+	case "existing-symlink-to-empty":
+		target := filepath.Join(tmp, "target-of-link")
+		os.WriteFile(target, nil, 0o644)
+		old := time.Unix(1_500_000_000, 0)
+		os.Chtimes(target, old, old)
+		os.Symlink(target, outPath)
 	case "existing-dir":
 		os.Mkdir(outPath, 0o755)
 		os.WriteFile(filepath.Join(outPath, "inside"), []byte("x"), 0o644)
@@ -205,7 +217,7 @@ func runC20(c c20Case, st *hx.Stats) error {
 		return hx.Failf("no-panic", "%v crashed: %s", args, head(errText, 1200))
 	}
 	switch c.Output {
-	case "existing-file", "existing-dir", "existing-symlink":
+	case "existing-file", "existing-dir", "existing-symlink", "existing-empty-file", "existing-empty-dir", "existing-symlink-to-empty":
 		if code == 0 {
 			return hx.Failf("never-clobbers", "%v with an already existing output (%s) exited 0", args[:2], c.Output)
 		}
